@@ -85,6 +85,18 @@ theorem C07_complete_strict (lookup : Bytes → DirSpec) (pat : Bytes) (st : Pad
                         (padChars st w) fs.ext).setPaddingStyle st)) :=
   FindComplete.find_complete_strict lookup pat st hidden fs entries w hp hl hnd toks htoks h2 hw hw1 hfr
 
+/-- … and a single candidate is not dropped either: the non-strict lookup returns a sequence with
+    the pattern's directory, basename and extension, in the requested style -/
+theorem C07_complete_single (lookup : Bytes → DirSpec) (pat : Bytes) (st : PadStyle) (hidden : Bool)
+    (fs : Seq) (entries : List Entry) (tk : Bytes)
+    (hp : Seq.parse st pat = .ok fs) (hl : lookup (openDir fs.dir) = some entries)
+    (hnd : ∀ e ∈ entries, e.kind ≠ .dangling)
+    (htoks : FindComplete.candToks ⟨false, hidden, st⟩ fs
+        ((entries.filter fun e => e.kind = .file ∨ e.kind = .linkFile).map fun e => ⟨dirPrefix (openDir fs.dir), e.name⟩) = [tk]) :
+    ∃ s, findSequenceOnDisk lookup pat st false hidden = .ok (some s) ∧
+      s.dir = fs.dir ∧ s.base = fs.base ∧ s.ext = fs.ext ∧ s.style = st :=
+  FindComplete.find_single lookup pat st hidden fs entries tk hp hl hnd htoks
+
 /-- … and that range text denotes exactly their numbers, ascending (C09), when the numbers are
     distinct and fit an int -/
 theorem C07_complete_frames (toks : List Bytes) (hne : toks ≠ [])
